@@ -49,6 +49,7 @@ func c07FilterFamily() [][]simrt.FilterSpec {
 		{{Authors: []string{a1}}, {Kinds: []int64{7}, Limit: i64(1)}},
 		{{Tags: map[string][]string{"t": {"x"}}}},
 		{{Kinds: []int64{1}, Tags: map[string][]string{"t": {"y"}}}},
+		{{Tags: map[string][]string{"t": {"x", "y"}, "p": {a0}}}},
 		{{Authors: []string{a0, a1}, Kinds: []int64{7}}, {Since: i64(50)}},
 		{{Until: i64(49), Limit: i64(0)}},
 		{{EmptyKinds: true}},
@@ -89,8 +90,9 @@ func (c07Engine) Gen(t *rapid.T, tier string) any {
 					CreatedAt: int64(rapid.IntRange(40, 60).Draw(t, "created_at")),
 					Content:   fmt.Sprintf("e%d.%d", ci, evn),
 				}
-				if tg := rapid.IntRange(0, 2).Draw(t, "ttag"); tg > 0 {
-					ev.Tags = [][]string{{"t", []string{"x", "y"}[tg-1]}}
+				if tg := rapid.IntRange(0, 5).Draw(t, "ttag"); tg > 0 {
+					a0 := ref.Authors[0].Pubkey
+					ev.Tags = [][][]string{{{"t", "x"}}, {{"t", "y"}}, {{"t", "x"}, {"t", "y"}}, {{"t", "x"}, {"p", a0}}, {{"t", "y"}, {"t", "x"}, {"p", a0, "hint"}}}[tg-1]
 				}
 				cl.Script = append(cl.Script, simrt.Op{Kind: "send", Msg: &simrt.Msg{T: "EVENT", Ev: ev}})
 				replies++
